@@ -618,11 +618,47 @@ def registration_table(repo):
     return {"Registration.lean": {"changed": changed, "mode": mode}}
 
 
+def parser_calls(repo):
+    """Every `add_argument` call of `support.generate_argparse_parser`, read off the source: its `action`, the names of the keywords it
+    passes, and whether a `default=` it passes is the literal None. (An option that is given `type=`, `choices=`, `nargs=`, `const=`,
+    `required=` or a default other than None would make argparse itself interpret, refuse or supply values, instead of handing the
+    command line's text to the field.)"""
+    mod = _parse(repo, "support.py")
+    fn = next((n for n in mod.body if isinstance(n, ast.FunctionDef) and n.name == "generate_argparse_parser"), None)
+    if fn is None:
+        raise Unknown("support.generate_argparse_parser not found")
+    out = []
+    for c in ast.walk(fn):
+        if isinstance(c, ast.Call) and isinstance(c.func, ast.Attribute) and c.func.attr == "add_argument":
+            if any(k.arg is None for k in c.keywords):
+                raise Unknown("generate_argparse_parser: add_argument(**kwargs) cannot be read")
+            kws = {k.arg: k.value for k in c.keywords}
+            action = kws.get("action")
+            action = action.value if isinstance(action, ast.Constant) and isinstance(action.value, str) else ("store" if action is None else "?")
+            dflt = kws.get("default")
+            default_none = dflt is None or (isinstance(dflt, ast.Constant) and dflt.value is None)
+            out.append((action, sorted(kws), default_none))
+    if not out:
+        raise Unknown("generate_argparse_parser: no add_argument call found")
+    return out
+
+
+def parser_table(repo):
+    t = parser_calls(repo)
+    lines = ["/- GENERATED by harness/extract.py from /repo on every run — do not edit. -/", "namespace Cinco.Generated", "",
+             "/-- every `add_argument` call of `generate_argparse_parser`: (action, keyword names passed, `default=` absent or the literal None) -/",
+             "def parserCalls : List (String × List String × Bool) := [%s]" % ", ".join(
+                 "(%s, [%s], %s)" % (lstr(a), ", ".join(lstr(k) for k in ks), "true" if d else "false") for a, ks, d in t),
+             "", "end Cinco.Generated"]
+    changed = _write("Parser.lean", "\n".join(lines) + "\n")
+    return {"Parser.lean": {"changed": changed, "calls": t}}
+
+
 def run(repo):
     """regenerate every table; a table whose source the translator cannot read any more is left as it was (the last reading) and
     reported under "unreadable": the obligations over it are then not established for the current source"""
     notes = {}
-    for step in (tables, overrides, effects, stub_effects, defaults_table, fast_paths_table, registration_table):
+    for step in (tables, overrides, effects, stub_effects, defaults_table, fast_paths_table, registration_table, parser_table):
         try:
             notes.update(step(repo))
         except Unknown as e:
